@@ -129,6 +129,25 @@ def lastClient : List ReqOp → Option SvcConf → Option SvcConf
   | .client c' :: rest, _ => lastClient rest c'
   | _ :: rest, c => lastClient rest c
 
+/-! ### Values do not share state
+
+"An empty range covers none" and "schedules survive round trips unchanged" are
+about VALUES: a fresh `EmptyWeekly()` is empty whatever was decoded before, and
+decoding into one schedule never changes another one. -/
+
+/-- What the harness sees after every operation of an aliasing block. -/
+structure AliasObs where
+  emptyDays : Week DayRange          -- a fresh EmptyWeekly()
+  emptyProbes : List Bool            -- its Contains on probe instants of every weekday
+  slots : List Weekly                -- every schedule value created so far
+
+/-- `none` = fine; otherwise the violated clause. -/
+def specAlias (prev : List Weekly) (target : Option Nat) (o : AliasObs) : Option String :=
+  if o.emptyDays != Week.const DayRange.zero || o.emptyProbes.any id then some "C18.empty-not-empty"
+  else if (List.range prev.length).any (fun j => some j != target && o.slots[j]? != prev[j]?) then
+    some "C18.decode-changed-another-value"
+  else none
+
 /-! ### Prop-level definitions used by the theorems -/
 
 /-- A schedule as the decoders produce it. -/
